@@ -9,48 +9,49 @@
        leaves unconsumed input only after returning >= 1 byte
    Everything else -- sentinel handling, fast refusal, the running total of the loops, the
    read sizes, the flush tail, dispatch and default levels -- is proved, for ALL byte strings,
-   ALL levels and ALL caps >= 0.  [b] = whether the source carries the `if not do.eof` guard
-   (regenerated; the theorems hold either way). *)
+   ALL levels and ALL caps >= 0.  [K : knobs] = the values of the source no proof depends on
+   (eof guard / eof break present or not, read chunk, default levels, wbits; regenerated): the theorems hold
+   for every K whose read chunk is >= 1. *)
 From Coq Require Import List NArith ZArith Bool.
 From VGI Require Import M_Codec L_Codec.
 Import ListNotations.
 Open Scope Z_scope.
 
 (* compress then decompress under a cap: the original iff it fits, otherwise the limit error *)
-Theorem C18_roundtrip_cap : forall b E, codec_laws (std_params b) E ->
+Theorem C18_roundtrip_cap : forall K, 1 <= k_chunk K -> forall E, codec_laws (std_params K) E ->
   forall e lvl d cap, e <> Identity -> 0 <= cap ->
-    decompress (std_params b) E e (compress (std_params b) E e d lvl) (Some cap) =
+    decompress (std_params K) E e (compress (std_params K) E e d lvl) (Some cap) =
       if len d <=? cap then Ok d else LimitErr.
 Proof. exact roundtrip_cap. Qed.
 Print Assumptions C18_roundtrip_cap.
 
 (* ... and without a cap: always the original, for the three codecs *)
-Theorem C18_roundtrip_nocap : forall b E, codec_laws (std_params b) E ->
-  forall e lvl d, decompress (std_params b) E e (compress (std_params b) E e d lvl) None = Ok d.
+Theorem C18_roundtrip_nocap : forall K E, codec_laws (std_params K) E ->
+  forall e lvl d, decompress (std_params K) E e (compress (std_params K) E e d lvl) None = Ok d.
 Proof. exact roundtrip_nocap. Qed.
 Print Assumptions C18_roundtrip_nocap.
 
 (* any zstd frame of d -- size-declaring or size-less, from whichever compressor *)
-Theorem C18_zstd_frame_cap : forall b E f d cap,
-  zstd_frame_of (std_params b) E f d -> 0 <= cap ->
-  decompress (std_params b) E Zstd f (Some cap) = if len d <=? cap then Ok d else LimitErr.
+Theorem C18_zstd_frame_cap : forall K, 1 <= k_chunk K -> forall E f d cap,
+  zstd_frame_of (std_params K) E f d -> 0 <= cap ->
+  decompress (std_params K) E Zstd f (Some cap) = if len d <=? cap then Ok d else LimitErr.
 Proof. exact zstd_frame_cap. Qed.
 Print Assumptions C18_zstd_frame_cap.
 
-Theorem C18_zstd_frame_nocap : forall b E f d,
-  zstd_frame_of (std_params b) E f d -> decompress (std_params b) E Zstd f None = Ok d.
+Theorem C18_zstd_frame_nocap : forall K E f d,
+  zstd_frame_of (std_params K) E f d -> decompress (std_params K) E Zstd f None = Ok d.
 Proof. exact zstd_frame_nocap. Qed.
 Print Assumptions C18_zstd_frame_nocap.
 
 (* any complete gzip stream of d *)
-Theorem C18_gzip_frame_cap : forall b E f d cap,
-  gz_frame_of (std_params b) E f d -> 0 <= cap ->
-  decompress (std_params b) E Gzip f (Some cap) = if len d <=? cap then Ok d else LimitErr.
+Theorem C18_gzip_frame_cap : forall K, 1 <= k_chunk K -> forall E f d cap,
+  gz_frame_of (std_params K) E f d -> 0 <= cap ->
+  decompress (std_params K) E Gzip f (Some cap) = if len d <=? cap then Ok d else LimitErr.
 Proof. exact gz_frame_cap. Qed.
 Print Assumptions C18_gzip_frame_cap.
 
-Theorem C18_gzip_frame_nocap : forall b E f d,
-  gz_frame_of (std_params b) E f d -> decompress (std_params b) E Gzip f None = Ok d.
+Theorem C18_gzip_frame_nocap : forall K E f d,
+  gz_frame_of (std_params K) E f d -> decompress (std_params K) E Gzip f None = Ok d.
 Proof. exact gz_frame_nocap. Qed.
 Print Assumptions C18_gzip_frame_nocap.
 
@@ -61,34 +62,34 @@ Proof. exact identity_passthrough. Qed.
 Print Assumptions C18_identity.
 
 (* both spellings of "content size not stored" mean unknown, and nothing else does *)
-Theorem C18_unknown_size_sentinel : forall b raw,
-  zstd_content_size (std_params b) raw = None <-> raw = -1 \/ raw = 18446744073709551615.
+Theorem C18_unknown_size_sentinel : forall K raw,
+  zstd_content_size (std_params K) raw = None <-> raw = -1 \/ raw = 18446744073709551615.
 Proof. exact content_size_none_iff. Qed.
 Print Assumptions C18_unknown_size_sentinel.
 
-Theorem C18_known_size : forall b raw,
-  raw <> -1 -> raw <> 18446744073709551615 -> zstd_content_size (std_params b) raw = Some raw.
+Theorem C18_known_size : forall K raw,
+  raw <> -1 -> raw <> 18446744073709551615 -> zstd_content_size (std_params K) raw = Some raw.
 Proof. exact content_size_some. Qed.
 Print Assumptions C18_known_size.
 
 (* a declared size above the cap is refused before any decoding (honest header or not) ... *)
-Theorem C18_declared_over_cap_refused : forall b E f s cap,
-  zstd_content_size (std_params b) (zstd_declared E f) = Some s -> s > cap ->
-  decompress_tr (std_params b) E Zstd f (Some cap) = (LimitErr, []).
+Theorem C18_declared_over_cap_refused : forall K E f s cap,
+  zstd_content_size (std_params K) (zstd_declared E f) = Some s -> s > cap ->
+  decompress_tr (std_params K) E Zstd f (Some cap) = (LimitErr, []).
 Proof. exact declared_over_cap_refused. Qed.
 Print Assumptions C18_declared_over_cap_refused.
 
 (* ... and one within the cap goes to the one-shot decoder *)
-Theorem C18_declared_within_cap_oneshot : forall b E f s cap,
-  zstd_content_size (std_params b) (zstd_declared E f) = Some s -> s <= cap ->
-  decompress_tr (std_params b) E Zstd f (Some cap) = (zstd_oneshot E f, []).
+Theorem C18_declared_within_cap_oneshot : forall K E f s cap,
+  zstd_content_size (std_params K) (zstd_declared E f) = Some s -> s <= cap ->
+  decompress_tr (std_params K) E Zstd f (Some cap) = (zstd_oneshot E f, []).
 Proof. exact declared_within_cap_oneshot. Qed.
 Print Assumptions C18_declared_within_cap_oneshot.
 
-(* every size asked of reader.read / passed as zlib max_length is in [1, min(65536, cap+1)],
+(* every size asked of reader.read / passed as zlib max_length is in [1, min(chunk, cap+1)],
    for ANY library behaviour: never 0 (= "b''" for zstd, = "unlimited" for zlib), never negative *)
-Theorem C18_requests_bounded : forall b E e f cap, 0 <= cap ->
-  Forall (fun n => 1 <= n <= Z.min 65536 (cap + 1)) (snd (decompress_tr (std_params b) E e f (Some cap))).
+Theorem C18_requests_bounded : forall K, 1 <= k_chunk K -> forall E e f cap, 0 <= cap ->
+  Forall (fun n => 1 <= n <= Z.min (k_chunk K) (cap + 1)) (snd (decompress_tr (std_params K) E e f (Some cap))).
 Proof. exact requests_bounded. Qed.
 Print Assumptions C18_requests_bounded.
 
@@ -99,26 +100,28 @@ Proof. intros. apply zstd_loop_no_diverge. apply le_n. Qed.
 Print Assumptions C18_zstd_loop_terminates.
 
 (* ---- non-vacuity: the premises are satisfiable, and both paths are exercised ---- *)
-Example C18_laws_inhabited : forall b sized, codec_laws (std_params b) (toy_env sized).
+Example C18_laws_inhabited : forall K sized, codec_laws (std_params K) (toy_env sized).
 Proof. exact toy_laws. Qed.
+
+Definition with_eof_guard : knobs := {| k_eof := true; k_eof_break := true; k_chunk := 2; k_zstd_level := 3; k_gzip_level := 6; k_wbits := 31 |}.
 
 (* size-less frame (declared = -1): streaming loop; exactly at the cap, one below, empty *)
 Example C18_stream_at_cap :
-  decompress (std_params false) (toy_env false) Zstd [1;2;3]%N (Some 3) = Ok [1;2;3]%N /\
-  decompress (std_params false) (toy_env false) Zstd [1;2;3]%N (Some 2) = LimitErr /\
-  decompress (std_params false) (toy_env false) Zstd [] (Some 0) = Ok [] /\
-  snd (decompress_tr (std_params false) (toy_env false) Zstd [1;2;3]%N (Some 3)) = [4; 1].
+  decompress (std_params today) (toy_env false) Zstd [1;2;3]%N (Some 3) = Ok [1;2;3]%N /\
+  decompress (std_params today) (toy_env false) Zstd [1;2;3]%N (Some 2) = LimitErr /\
+  decompress (std_params today) (toy_env false) Zstd [] (Some 0) = Ok [] /\
+  snd (decompress_tr (std_params today) (toy_env false) Zstd [1;2;3]%N (Some 3)) = [4; 1].
 Proof. vm_compute. repeat split. Qed.
 
 (* size-declaring frame: fast path *)
 Example C18_declared_at_cap :
-  decompress (std_params false) (toy_env true) Zstd [1;2;3]%N (Some 3) = Ok [1;2;3]%N /\
-  decompress (std_params false) (toy_env true) Zstd [1;2;3]%N (Some 2) = LimitErr.
+  decompress (std_params today) (toy_env true) Zstd [1;2;3]%N (Some 3) = Ok [1;2;3]%N /\
+  decompress (std_params today) (toy_env true) Zstd [1;2;3]%N (Some 2) = LimitErr.
 Proof. vm_compute. repeat split. Qed.
 
 Example C18_gzip_at_cap :
-  decompress (std_params true) (toy_env true) Gzip [1;2;3]%N (Some 3) = Ok [1;2;3]%N /\
-  decompress (std_params true) (toy_env true) Gzip [1;2;3]%N (Some 2) = LimitErr /\
-  decompress (std_params true) (toy_env true) Gzip [1;2;3]%N (Some 0) = LimitErr /\
-  snd (decompress_tr (std_params true) (toy_env true) Gzip [1;2;3]%N (Some 3)) = [4].
+  decompress (std_params with_eof_guard) (toy_env true) Gzip [1;2;3]%N (Some 3) = Ok [1;2;3]%N /\
+  decompress (std_params with_eof_guard) (toy_env true) Gzip [1;2;3]%N (Some 2) = LimitErr /\
+  decompress (std_params with_eof_guard) (toy_env true) Gzip [1;2;3]%N (Some 0) = LimitErr /\
+  snd (decompress_tr (std_params with_eof_guard) (toy_env true) Gzip [1;2;3]%N (Some 3)) = [2; 2].
 Proof. vm_compute. repeat split. Qed.
